@@ -80,6 +80,9 @@ func main() {
 			http.NotFound(w, req)
 			return
 		}
+		if r, ok := w.(*rec); ok {
+			w = r.ResponseWriter // the logging wrapper does not forward Hijack
+		}
 		hj, ok := w.(http.Hijacker)
 		if !ok {
 			http.Error(w, "no hijack", 500)
